@@ -86,6 +86,33 @@ pub fn families() -> Vec<Box<dyn Family>> {
             },
         ),
         family(
+            "tolerance",
+            "heterogeneous item types with a NON-TRANSITIVE, coarse cross comparison: old items u32, new items Tol (Tol == u32 iff |a-b| <= 1): every ordered pair over {0..4} with length <= 4 (thorough 5) x all sub-ranges of the short ones x 3 algorithms; plus seeded random pairs up to 40 items over {0..9}",
+            true,
+            16,
+            |cfg| {
+                let n = gen::all_seqs(5, if cfg.tiny { 2 } else { cfg.tier.pick(4, 5) }).len() as u64;
+                n * n
+            },
+            |idx, cfg, out| {
+                let seqs = gen::all_seqs(5, if cfg.tiny { 2 } else { cfg.tier.pick(4, 5) });
+                let (a, b) = gen::pair_of(seqs, idx);
+                let a: Vec<u32> = a.iter().map(|x| *x as u32 * 1).collect();
+                let b: Vec<u32> = b.iter().map(|x| *x as u32).collect();
+                out.sample(|| format!("old={:?} new(Tol)={:?}", a, b));
+                tolerance_case(&a, &b, a.len() + b.len() <= 5, out);
+                // a longer random pair derived from the index
+                if idx % 16 == 0 {
+                    let mut rng = Rng::for_case(cfg.seed, "c01.tolerance", idx);
+                    let la = rng.below(if cfg.tiny { 5 } else { 40 });
+                    let lb = rng.below(if cfg.tiny { 5 } else { 40 });
+                    let a: Vec<u32> = (0..la).map(|_| rng.below(10) as u32).collect();
+                    let b: Vec<u32> = if rng.chance(1, 2) { (0..lb).map(|_| rng.below(10) as u32).collect() } else { gen::point_edits(&mut rng, &a, 3, 10, 44) };
+                    tolerance_case(&a, &b, false, out);
+                }
+            },
+        ),
+        family(
             "big",
             "G-BIG: long near-identical pairs (1000..6000 items quick / 30000 thorough; some cross 65536) with <= 8 edits, a block move or a duplicated block x {Myers, Patience} (LCS up to 1500) on random sub-ranges, through slices and red-zone lookups + shift-equivalence",
             false,
@@ -300,3 +327,31 @@ fn hetero_case(alg: Algorithm, a: &[u32], or: std::ops::Range<usize>, b: &[u32],
 
 #[allow(dead_code)]
 pub fn unused(_: &Config) {}
+
+fn tolerance_case(a: &[u32], b: &[u32], all_subranges: bool, out: &mut Local) {
+    let tb: Vec<crate::mon::Tol> = b.iter().map(|x| crate::mon::Tol(*x)).collect();
+    let eq = |o: usize, n: usize| tb[n] == a[o];
+    let ranges: Vec<(std::ops::Range<usize>, std::ops::Range<usize>)> = if all_subranges {
+        let mut v = Vec::new();
+        for or in gen::subranges(a.len()) {
+            for nr in gen::subranges(b.len()) {
+                v.push((or.clone(), nr));
+            }
+        }
+        v
+    } else {
+        vec![(0..a.len(), 0..b.len())]
+    };
+    for (or, nr) in ranges {
+        for alg in ALGS {
+            out.eval();
+            let ctx = || format!("alg={} old(u32)={} range {:?} new(Tol: equal iff |a-b|<=1)={} range {:?}", alg_name(alg), fmt_seq(a), or, fmt_seq(b), nr);
+            let r = traced(Entry::Dispatch, alg, a, or.clone(), &tb[..], nr.clone(), &eq, None, false);
+            report_trace(out, "diff with a tolerance cross comparison", &ctx, &r);
+            out.count("tolerance_runs");
+            if !or.is_empty() && !nr.is_empty() {
+                out.nontrivial(&("tol", alg_name(alg), a, or.start, or.end, b, nr.start, nr.end));
+            }
+        }
+    }
+}
